@@ -10,7 +10,13 @@ instance is valid by construction and validated once by xmlschema.  For each (sc
     the one of the reference model, and it equals what xmlschema decodes from the same text;
   * `instance of element(*, T)` / `attribute(*, T)` holds for the declared type and each of its base types and fails for unrelated types;
   * arithmetic and comparisons on the node use the typed value;
-  * 40 structural path expressions select exactly the same nodes with and without the schema.
+  * 45 structural path expressions select exactly the same nodes with and without the schema.
+Further schema shapes (added after seeded changes were missed): two local elements with the SAME name and different types under different
+parents (every ordered pair of 6 types, both document orders, also at different depths); simple-content extensions of list types; list-typed
+attributes; restrictions of lists, lists of restricted items, unions with restricted members, lists of unions, restrictions of unions,
+restriction chains with user-defined type names used in element(*, T) / attribute(*, T).
+Unit `reuse` (shape S): one prebuilt node tree used by a history of up to 3 contexts, each bound to schema A, schema B (same structure,
+other types) or no schema; after every step with a schema the typed values are the ones of that schema.
 Oracle: mc.models.atomic (lexical -> value -> canonical string), mc.models.seqtypes (type hierarchy), xmlschema's own decoder.
 """
 import itertools
@@ -32,7 +38,11 @@ NUMERIC = ['decimal', 'double', 'float'] + list(A.INT_BOUNDS)
 XSI = 'http://www.w3.org/2001/XMLSchema-instance'
 PATHS = ['*', 'c', '//c', '/r/c', 'c[1]', 'c[last()]', '@*', '//@*', '//*', 'c/text()', '..', '.', 'child::*', 'descendant-or-self::node()', 'descendant::*', 'c/@*', '*[1]/@*', 'c[@b]',
          'c[not(@b)]', '//c[1]', '/r', '/r/*', '/r/@*', 'c/..', 'c/parent::r', 'c/following-sibling::*', 'c/preceding-sibling::*', '//text()', '//node()', 'self::r', 'c/self::c',
-         '*[position() = 1]', '*[position() > 1]', 'count(//*)', 'count(//@*)', 'count(c)', 'name(*[1])', 'c/ancestor::*', '//*[self::c or self::d]', 'd']
+         '*[position() = 1]', '*[position() > 1]', 'count(//*)', 'count(//@*)', 'count(c)', 'name(*[1])', 'c/ancestor::*', '//*[self::c or self::d]', 'd',
+         'g/c', '*/c', '*/*', '//c/..', 'h//c']
+SAME_NAME_TYPES = ['int', 'NCName', 'date', 'gYear', 'decimal', 'boolean']
+SAME_NAME_LIT = {'int': '12', 'NCName': 'c12', 'date': '2000-02-29', 'gYear': '1999', 'decimal': '1.50', 'boolean': 'true'}
+LIST_ITEMS = {'int': ['1', '22', '3'], 'decimal': ['1.5', '2', '0.25'], 'date': ['2000-01-01', '1999-12-31'], 'NMTOKEN': ['a', 'b'], 'double': ['1.5', '2']}
 
 
 def ancestors(T):
@@ -74,22 +84,76 @@ def schema_cases():
                 [('<c xmlns:xsi="%s" xmlns:xs="http://www.w3.org/2001/XMLSchema" xsi:type="xs:byte">5</c><c>300</c>' % XSI, '', {'c': [('byte', '5'), ('integer', '300')]})]))
     out.append(('attribute-default', 'attribute-default', 'decimal', '<xs:element name="c" type="xs:string" minOccurs="0"/>', '<xs:attribute name="a" type="xs:decimal" default="1.5"/>',
                 [('<c>x</c>', '', {'attrs': {'a': ('decimal', '1.5')}, 'c': [('string', 'x')], 'defaulted': ['a']}), ('<c>x</c>', ' a="2.5"', {'attrs': {'a': ('decimal', '2.5')}, 'c': [('string', 'x')]})]))
+    # --- same local name, different types under different parents (the element match cache is keyed by content model) ---
+    for T1, T2 in itertools.permutations(SAME_NAME_TYPES, 2):
+        body = ('<xs:choice maxOccurs="unbounded"><xs:element name="g"><xs:complexType><xs:sequence><xs:element name="c" type="xs:%s"/></xs:sequence></xs:complexType></xs:element>'
+                '<xs:element name="h"><xs:complexType><xs:sequence><xs:element name="c" type="xs:%s"/></xs:sequence></xs:complexType></xs:element></xs:choice>' % (T1, T2))
+        insts = []
+        for order in ('gh', 'hg', 'ghg'):
+            xml = ''.join('<%s><c>%s</c></%s>' % (e, SAME_NAME_LIT[T1 if e == 'g' else T2], e) for e in order)
+            insts.append((xml, '', {'paths': [('/r/%s[%d]/c' % (e, order[:k + 1].count(e)), 'element', (T1 if e == 'g' else T2, SAME_NAME_LIT[T1 if e == 'g' else T2])) for k, e in enumerate(order)],
+                                    'wildcard': [('/r/*[%d]/c' % (k + 1), (T1 if e == 'g' else T2, SAME_NAME_LIT[T1 if e == 'g' else T2])) for k, e in enumerate(order)]}))
+        out.append(('same-name:%s:%s' % (T1, T2), 'same-name', None, body, '', insts))
+    for T1, T2 in (('int', 'NCName'), ('date', 'gYear'), ('NCName', 'int')):
+        body = ('<xs:element name="g"><xs:complexType><xs:sequence><xs:element name="c" type="xs:%s"/></xs:sequence></xs:complexType></xs:element>'
+                '<xs:element name="h"><xs:complexType><xs:sequence><xs:element name="k"><xs:complexType><xs:sequence><xs:element name="c" type="xs:%s" maxOccurs="2"/></xs:sequence>'
+                '</xs:complexType></xs:element><xs:element name="c" type="xs:%s"/></xs:sequence></xs:complexType></xs:element>' % (T1, T2, T1))
+        l1, l2 = SAME_NAME_LIT[T1], SAME_NAME_LIT[T2]
+        out.append(('same-name-depth:%s:%s' % (T1, T2), 'same-name', None, body, '',
+                    [('<g><c>%s</c></g><h><k><c>%s</c><c>%s</c></k><c>%s</c></h>' % (l1, l2, l2, l1), '',
+                      {'paths': [('/r/g/c', 'element', (T1, l1)), ('/r/h/k/c[1]', 'element', (T2, l2)), ('/r/h/k/c[2]', 'element', (T2, l2)), ('/r/h/c', 'element', (T1, l1))]})]))
+    # --- lists in other positions ---
+    for item, items in LIST_ITEMS.items():
+        g = '<xs:simpleType name="L"><xs:list itemType="xs:%s"/></xs:simpleType>' % item
+        out.append(('simple-content-list:' + item, 'list', item, '<xs:element name="c" maxOccurs="unbounded"><xs:complexType><xs:simpleContent><xs:extension base="L"><xs:attribute name="b" type="xs:int"/>'
+                    '</xs:extension></xs:simpleContent></xs:complexType></xs:element>', '',
+                    [('<c b="7">%s</c><c>%s</c>' % (' '.join(items), items[0]), '', {'lists': [('/r/c[1]', item, items), ('/r/c[2]', item, items[:1])], 'paths': [('/r/c[1]/@b', 'attribute', ('int', '7'))]})], g))
+        out.append(('attribute-list:' + item, 'list', item, '<xs:element name="c" type="xs:string" minOccurs="0"/>', '<xs:attribute name="a" type="L"/>',
+                    [('<c>x</c>', ' a="%s"' % ' '.join(items), {'lists': [('/r/@a', item, items)]})], g))
+        out.append(('list-restriction:' + item, 'list', item, '<xs:element name="c" type="L2" maxOccurs="unbounded"/>', '',
+                    [('<c>%s</c><c>%s</c>' % (' '.join(items), items[-1]), '', {'lists': [('/r/c[1]', item, items), ('/r/c[2]', item, items[-1:])]})],
+                    g + '<xs:simpleType name="L2"><xs:restriction base="L"><xs:maxLength value="3"/></xs:restriction></xs:simpleType>'))
+        out.append(('list-of-restricted:' + item, 'list', item, '<xs:element name="c" type="LS" maxOccurs="unbounded"/>', '',
+                    [('<c>%s</c>' % ' '.join(items), '', {'lists': [('/r/c[1]', item, items)]})],
+                    '<xs:simpleType name="S"><xs:restriction base="xs:%s"><xs:pattern value=".*"/></xs:restriction></xs:simpleType><xs:simpleType name="LS"><xs:list itemType="S"/></xs:simpleType>' % item))
+    # --- unions built from derived types ---
+    gS = '<xs:simpleType name="S"><xs:restriction base="xs:int"><xs:maxInclusive value="9"/></xs:restriction></xs:simpleType>'
+    out.append(('union-of-restricted', 'union', None, '<xs:element name="c" type="U" maxOccurs="unbounded"/>', '',
+                [('<c>5</c><c>2000-01-01</c>', '', {'c': [('int', '5'), ('date', '2000-01-01')]})], gS + '<xs:simpleType name="U"><xs:union memberTypes="S xs:date"/></xs:simpleType>'))
+    out.append(('union-restriction', 'union', None, '<xs:element name="c" type="U2" maxOccurs="unbounded"/>', '',
+                [('<c>5</c><c>2000-01-01</c>', '', {'c': [('int', '5'), ('date', '2000-01-01')]})],
+                '<xs:simpleType name="U"><xs:union memberTypes="xs:int xs:date"/></xs:simpleType><xs:simpleType name="U2"><xs:restriction base="U"><xs:pattern value=".*"/></xs:restriction></xs:simpleType>'))
+    out.append(('list-of-union', 'union', None, '<xs:element name="c" type="LU" maxOccurs="unbounded"/>', '',
+                [('<c>5 2000-01-01 6</c>', '', {'mixed_list': [('/r/c[1]', [('int', '5'), ('date', '2000-01-01'), ('int', '6')])]})],
+                '<xs:simpleType name="U"><xs:union memberTypes="xs:int xs:date"/></xs:simpleType><xs:simpleType name="LU"><xs:list itemType="U"/></xs:simpleType>'))
+    # --- restriction chains and user-defined type names in kind tests ---
+    for T, lit, facet in (('int', '5', '<xs:maxInclusive value="9"/>'), ('date', '2000-02-29', '<xs:minInclusive value="1999-01-01"/>'), ('string', 'abc', '<xs:maxLength value="9"/>'),
+                          ('decimal', '1.5', '<xs:maxInclusive value="9"/>'), ('NCName', 'b1', '<xs:maxLength value="9"/>')):
+        g = ('<xs:simpleType name="S"><xs:restriction base="xs:%s">%s</xs:restriction></xs:simpleType><xs:simpleType name="S2"><xs:restriction base="S"><xs:pattern value=".*"/></xs:restriction></xs:simpleType>'
+             '<xs:simpleType name="O"><xs:restriction base="xs:gDay"><xs:pattern value=".*"/></xs:restriction></xs:simpleType>' % (T, facet))
+        out.append(('restriction-chain:' + T, 'restriction', T, '<xs:element name="c" type="S2" maxOccurs="unbounded"/><xs:element name="d" minOccurs="0"><xs:complexType><xs:simpleContent>'
+                    '<xs:extension base="S2"><xs:attribute name="b" type="S"/></xs:extension></xs:simpleContent></xs:complexType></xs:element>', '<xs:attribute name="a" type="S2"/>',
+                    [('<c>%s</c><d b="%s">%s</d>' % (lit, lit, lit), ' a="%s"' % lit,
+                      {'c': [(T, lit)], 'd': [(T, lit)], 'attrs': {'a': (T, lit)}, 'paths': [('/r/d/@b', 'attribute', (T, lit))],
+                       'user': [('/r/c[1]', 'element', 'S2', True), ('/r/c[1]', 'element', 'S', True), ('/r/c[1]', 'element', 'O', False), ('/r/@a', 'attribute', 'S2', True), ('/r/@a', 'attribute', 'S', True),
+                                ('/r/@a', 'attribute', 'O', False), ('/r/d/@b', 'attribute', 'S', True)]})], g))
     out.append(('two-children', 'atomic', 'int', '<xs:element name="c" type="xs:int" maxOccurs="unbounded"/><xs:element name="d" type="xs:date" minOccurs="0"/>', '<xs:attribute name="a" type="xs:boolean"/>',
                 [('<c>1</c><c>2</c><d>2000-01-01</d>', ' a="true"', {'c': [('int', '1'), ('int', '2')], 'd': [('date', '2000-01-01')], 'attrs': {'a': ('boolean', 'true')}})]))
-    return out
+    return [c if len(c) == 7 else c + ('',) for c in out]
 
 
-def xsd_text(children, attrs):
-    return ('<xs:schema xmlns:xs="http://www.w3.org/2001/XMLSchema" xmlns:p="urn:p"><xs:element name="r"><xs:complexType><xs:sequence>%s</xs:sequence>%s'
-            '</xs:complexType></xs:element></xs:schema>' % (children, attrs))
+def xsd_text(children, attrs, globals_=''):
+    return ('<xs:schema xmlns:xs="http://www.w3.org/2001/XMLSchema" xmlns:p="urn:p">%s<xs:element name="r"><xs:complexType><xs:sequence>%s</xs:sequence>%s'
+            '</xs:complexType></xs:element></xs:schema>' % (globals_, children, attrs))
 
 
 def plan(tier, seed):
     cases = schema_cases()
     units = [{'kind': 'case', 'index': i, 'ver': v, 'lib': lib} for i in range(len(cases)) for v in ('1.0', '1.1') for lib in ('etree', 'lxml')]
+    units += [{'kind': 'reuse', 'ver': v, 'lib': lib, 'via': via} for v in ('1.0', '1.1') for lib in ('etree', 'lxml') for via in ('root', 'item')]
     return {
         'units': units,
-        'bounds': {'schemas': len(cases), 'xsd_versions': ['1.0', '1.1'], 'libraries': ['etree', 'lxml'], 'paths': len(PATHS), 'atomic_types': len(LEX)},
+        'bounds': {'reuse_history_depth': REUSE_DEPTH, 'reuse_alphabet': ['schema A', 'schema B', 'no schema'], 'schemas': len(cases), 'xsd_versions': ['1.0', '1.1'], 'libraries': ['etree', 'lxml'], 'paths': len(PATHS), 'atomic_types': len(LEX)},
         'rule': 'every generated schema x every listed instance x both XSD versions x both tree libraries: typed value, instance-of tests along the type hierarchy, '
                 'arithmetic / comparison on typed nodes, and every path of the structural path set with and without the schema; non-trivial = always',
         'assumptions': ['instances are validated once by xmlschema itself (a generated instance that is not valid is a harness error)',
@@ -150,7 +214,7 @@ def run_case(unit, tier, acc):
     from elementpath import datatypes as DT
     ver, lib = unit['ver'], unit['lib']
     S = setup(ver)
-    cid, kind, T, children, attrs, instances = schema_cases()[unit['index']]
+    cid, kind, T, children, attrs, instances, globals_ = schema_cases()[unit['index']]
     if lib == 'lxml':
         import lxml.etree as ET
     else:
@@ -162,7 +226,7 @@ def run_case(unit, tier, acc):
         acc.outcome('skipped: XSD 1.1 type')
         return
     try:
-        schema = S['cls'](xsd_text(children, attrs))
+        schema = S['cls'](xsd_text(children, attrs, globals_))
     except Exception as e:  # noqa
         raise RuntimeError('harness: schema %s does not compile: %r' % (cid, e))
     proxy = schema.xpath_proxy
@@ -282,15 +346,59 @@ def run_case(unit, tier, acc):
         for k, amap in enumerate(info.get('c_attrs', [])):
             for an, decl in amap.items():
                 typed_checks('/r/c[%d]/@%s' % (k + 1, an), decl, 'attribute')
+        for path, label, decl in info.get('paths', []):
+            typed_checks(path, decl, label)
+        for path, (tname, lit) in info.get('wildcard', []):
+            # the same node reached through a wildcard step with a position
+            canon = A.canonical(tname, A.parse(tname, lit, ver), ver)
+            rw = ev(sp, 'string(data(%s))' % path, mk_s)
+            acc.ev()
+            acc.cmp()
+            if rw != ('val', canon):
+                acc.violation('C20|typed-value|element|%s|wrong-value|wildcard-position-step' % fam(tname), '%s: string(data(%s)) on %s' % (cid, path, text), {'expected': canon, 'observed': repr(rw)[:100]}, case)
+            rw = ev(sp, 'data(%s) instance of xs:%s' % (path, tname), mk_s)
+            acc.ev()
+            if rw != ('val', True):
+                acc.violation('C20|typed-value|element|%s|not-instance-of-declared-type|wildcard-position-step' % fam(tname), '%s: data(%s) instance of xs:%s on %s' % (cid, path, tname, text),
+                              {'observed': repr(rw)[:100]}, case)
+            if tname in NUMERIC:
+                want = A._dec_str(A.parse(tname, lit, ver)[1] + 1)
+                rw = ev(sp, 'string(%s + 1)' % path, mk_s)
+                acc.ev()
+                acc.cmp()
+                if rw != ('val', want):
+                    acc.violation('C20|arithmetic-on-typed-node|element|%s|same-name|wildcard-position-step' % fam(tname), '%s: %s + 1 on %s' % (cid, path, text), {'expected': want, 'observed': repr(rw)[:100]}, case)
+        for path, test, tn, want in info.get('user', []):
+            # user-defined (no-namespace) type names in kind tests
+            ru = ev(sp, '%s instance of %s(*, %s)' % (path, test, tn), mk_s)
+            acc.ev()
+            acc.cmp()
+            if ru != ('val', want):
+                acc.violation('C20|instance-of-%s-type|user-defined-type|%s' % (test, 'not-accepted' if want else 'unrelated-type-accepted'), '%s: %s instance of %s(*, %s) on %s' % (cid, path, test, tn, text),
+                              {'expected': want, 'observed': repr(ru)[:100]}, case)
+        for path, decls in info.get('mixed_list', []):
+            r = ev(sp, 'for $x in data(%s) return string($x)' % path, mk_s)
+            acc.ev()
+            acc.cmp()
+            want_m = [A.canonical(t, A.parse(t, x, ver), ver) for t, x in decls]
+            if r != ('val', want_m):
+                acc.violation('C20|typed-value|list-of-union|wrong-value', '%s: data(%s) on %s' % (cid, path, text), {'expected': want_m, 'observed': repr(r)[:120]}, case)
+                continue
+            for k, (t, x) in enumerate(decls):
+                ri = ev(sp, 'data(%s)[%d] instance of xs:%s' % (path, k + 1, t), mk_s)
+                acc.ev()
+                if ri != ('val', True):
+                    acc.violation('C20|typed-value|list-of-union|not-instance-of-member-type', '%s: data(%s)[%d] on %s' % (cid, path, k + 1, text), {'member': t, 'observed': repr(ri)[:100]}, case)
+        lists = list(info.get('lists', []))
         if 'list' in info:
-            for k, items in enumerate(info['list']):
-                path = '/r/c[%d]' % (k + 1)
+            lists += [('/r/c[%d]' % (k + 1), info['item'], items) for k, items in enumerate(info['list'])]
+        if lists:
+            for path, item_t, items in lists:
                 r = ev(sp, 'data(%s)' % path, mk_s)
                 acc.ev()
                 acc.cmp()
-                item_t = info['item']
                 cls = DT.builtin_atomic_types['xs:' + item_t]
-                want_canon = [A.canonical(item_t, A.parse(item_t, x, ver), ver) for x in items]
+                want_canon = [A.canonical(item_t, A.parse(item_t, x, ver), ver) for x in items] if item_t not in ('double', 'float') else None
                 if r[0] != 'val' or not isinstance(r[1], list) or len(r[1]) != len(items):
                     acc.violation('C20|typed-value|list|%s|wrong-length' % item_t, '%s: data(%s) on %s' % (cid, path, text), {'expected_items': items, 'observed': repr(r)[:120]}, case)
                     continue
@@ -300,12 +408,31 @@ def run_case(unit, tier, acc):
                 rs = ev(sp, 'for $x in data(%s) return string($x)' % path, mk_s)
                 acc.ev()
                 got = rs[1] if rs[0] == 'val' and isinstance(rs[1], list) else [rs[1]] if rs[0] == 'val' else rs
-                if got != want_canon:
+                if want_canon is not None and got != want_canon:
                     acc.violation('C20|typed-value|list|%s|wrong-value' % fam(item_t), '%s: data(%s) on %s' % (cid, path, text), {'expected': want_canon, 'observed': repr(got)[:100]}, case)
                 ri = ev(sp, 'every $x in data(%s) satisfies $x instance of xs:%s' % (path, item_t), mk_s)
                 acc.ev()
                 if ri != ('val', True):
                     acc.violation('C20|typed-value|list|%s|not-instance-of-item-type' % fam(item_t), '%s: data(%s) on %s' % (cid, path, text), {'observed': repr(ri)[:100]}, case)
+                if item_t in NUMERIC:
+                    # operations on the list-typed node use the item values
+                    first = A.parse(item_t, items[0], ver)
+                    rq = ev(sp, '%s = xs:%s($l)' % (path, item_t), mk_s, l=items[-1])
+                    acc.ev()
+                    acc.cmp()
+                    if rq != ('val', True):
+                        acc.violation('C20|comparison-on-typed-node|list|%s' % fam(item_t), '%s: %s = xs:%s(%r) on %s' % (cid, path, item_t, items[-1], text), {'observed': repr(rq)[:100]}, case)
+                    rc = ev(sp, 'count(data(%s))' % path, mk_s)
+                    acc.ev()
+                    if rc != ('val', len(items)):
+                        acc.violation('C20|typed-value|list|%s|wrong-length' % item_t, '%s: count(data(%s)) on %s' % (cid, path, text), {'expected': len(items), 'observed': repr(rc)[:100]}, case)
+                    if first[0] == 'dec':
+                        want_max = A._dec_str(max(A.parse(item_t, x, ver)[1] for x in items))
+                        rm = ev(sp, 'string(max(%s))' % path, mk_s)
+                        acc.ev()
+                        acc.cmp()
+                        if rm != ('val', want_max):
+                            acc.violation('C20|arithmetic-on-typed-node|list|%s|max' % fam(item_t), '%s: max(%s) on %s' % (cid, path, text), {'expected': want_max, 'observed': repr(rm)[:100]}, case)
         # selection is unchanged by the schema
         for path in PATHS:
             a = ev(sp, path, mk_s)
@@ -343,13 +470,83 @@ def run_case(unit, tier, acc):
     acc.sample({'schema_case': cid, 'xsd_version': ver, 'library': lib, 'instance': '<r%s>%s</r>' % (instances[0][1], instances[0][0])}, limit=1)
 
 
+REUSE_DEPTH = 3
+REUSE_SCHEMAS = {'A': ('int', 'decimal', 'date'), 'B': ('NMTOKEN', 'string', 'gYear')}     # types of /r/c, /r/@a and /r/d in the two schemas
+
+
+def run_reuse(unit, tier, acc):
+    """Shape S: one node tree, a history of contexts bound to schema A / schema B / no schema; state = the binding history."""
+    from elementpath import XPathContext, get_node_tree
+    from elementpath.xpath31 import XPath31Parser
+    ver, lib, via = unit['ver'], unit['lib'], unit['via']
+    S = setup(ver)
+    if lib == 'lxml':
+        import lxml.etree as ET
+    else:
+        import xml.etree.ElementTree as ET
+    ns = {'xs': 'http://www.w3.org/2001/XMLSchema'}
+    text = '<r a="7"><c>12</c><c>3</c><d>2000</d></r>'.replace('2000', '2000-01-01')
+    lit = {'c1': '12', 'c2': '3', 'a': '7', 'd': '2000-01-01'}
+    proxies, parsers = {}, {}
+    for name, (tc, ta, td) in REUSE_SCHEMAS.items():
+        td_ = td if name == 'A' else 'string'
+        schema = S['cls'](xsd_text('<xs:element name="c" type="xs:%s" maxOccurs="unbounded"/><xs:element name="d" type="xs:%s"/>' % (tc, td_), '<xs:attribute name="a" type="xs:%s"/>' % ta))
+        if not schema.is_valid(ET.fromstring(text)):
+            raise RuntimeError('harness: reuse instance is not valid for schema ' + name)
+        proxies[name] = schema.xpath_proxy
+        parsers[name] = XPath31Parser(namespaces=ns, schema=proxies[name], xsd_version=ver)
+    types = {'A': {'c1': 'int', 'c2': 'int', 'a': 'decimal', 'd': 'date'}, 'B': {'c1': 'NMTOKEN', 'c2': 'NMTOKEN', 'a': 'string', 'd': 'string'}}
+    B_lit_ok = all(A.parse(types['B'][k], lit[k], ver) is not None for k in lit)
+    paths = {'c1': '/r/c[1]', 'c2': '/r/c[2]', 'a': '/r/@a', 'd': '/r/d'}
+    alphabet = ['A', 'B', 'N']
+    for depth in range(1, REUSE_DEPTH + 1):
+        for hist in itertools.product(alphabet, repeat=depth):
+            if 'B' in hist and not B_lit_ok:
+                continue
+            tree = get_node_tree(ET.fromstring(text))
+            case = {'kind': 'reuse', 'ver': ver, 'lib': lib, 'via': via, 'history': list(hist)}
+            acc.case(True)
+            for step, b in enumerate(hist):
+                try:
+                    if via == 'root':
+                        ctx = XPathContext(root=tree, schema=proxies.get(b), namespaces=ns)
+                    else:
+                        ctx = XPathContext(root=tree, item=tree, schema=proxies.get(b), namespaces=ns)
+                except Exception as e:  # noqa
+                    acc.violation('C20|reuse|context-creation-fails', 'history %s step %d' % (''.join(hist), step), {'error': repr(e)[:120]}, case)
+                    break
+                if b == 'N':
+                    continue        # what a schema-less context sees on a tree typed by an earlier context is not judged
+                acc.ev()
+                for k, path in paths.items():
+                    tname = types[b][k]
+                    canon = A.canonical(tname, A.parse(tname, lit[k], ver), ver)
+                    try:
+                        r = parsers[b].parse('data(%s) instance of xs:%s' % (path, tname)).evaluate(ctx)
+                        r2 = parsers[b].parse('string(data(%s))' % path).evaluate(ctx)
+                    except Exception as e:  # noqa
+                        r, r2 = 'error', repr(e)[:100]
+                    acc.ev(2)
+                    acc.cmp()
+                    acc.outcome('reuse:%s' % ('typed' if r is True else 'not-typed'))
+                    if r is not True or r2 != canon:
+                        prev = ''.join(hist[:step])
+                        acc.violation('C20|reuse|%s|after-%s' % ('attribute' if k == 'a' else 'element', 'same-schema' if b in prev else 'other-binding' if prev else 'nothing'),
+                                      'history %s, step %d (schema %s): data(%s)' % (''.join(hist), step, b, path), {'expected_type': tname, 'instance_of': repr(r), 'string': r2, 'expected_string': canon}, case)
+                        break
+    acc.sample({'unit': 'reuse', 'xsd_version': ver, 'library': lib, 'context': via, 'instance': text}, limit=1)
+
+
 def fam(T):
     return 'integer-subtype' if T in A.INT_BOUNDS and T != 'integer' else T
 
 
 def run_unit(unit, tier, acc):
-    run_case(unit, tier, acc)
+    if unit['kind'] == 'reuse':
+        run_reuse(unit, tier, acc)
+    else:
+        run_case(unit, tier, acc)
 
 
 def replay(case, acc):
-    run_case(case, 'quick', acc)
+    run_unit(case, 'quick', acc)
